@@ -19,7 +19,7 @@ if [ ! -d "$BASE/repo/.git" ]; then
 else
   git -C "$BASE/repo" checkout -q -- . && git -C "$BASE/repo" clean -fdq src && git -C "$BASE/repo" fetch -q origin && git -C "$BASE/repo" reset -q --hard origin/HEAD 2>/dev/null || git -C "$BASE/repo" reset -q --hard "$(git -C /repo rev-parse HEAD)" || exit 3
 fi
-rsync -a --delete --exclude 'sim/target-miri' --exclude '.git' /verif/ "$BASE/verif/" || exit 3
+rsync -a --delete --exclude 'sim/target-miri' --exclude '.git' /verif/ "$BASE/verif/"; RS=$?; [ $RS = 0 ] || [ $RS = 24 ] || exit 3
 CMD="$*"
 unshare -m sh -c "mount --bind '$BASE/repo' /repo && mount --bind '$BASE/verif' /verif && cd /verif && $CMD"
 RC=$?
